@@ -204,6 +204,27 @@ func (p *ParametersLiteral) UnmarshalBinary(data []byte) (err error) {
 	return json.Unmarshal(data, p)
 }
 
+// UnmarshalJSON decodes the distributions Xs and Xe (interface fields) through [ring.ParametersFromMap], every other field as usual.
+func (p *ParametersLiteral) UnmarshalJSON(data []byte) (err error) {
+	type plain ParametersLiteral // same fields, no methods
+	aux := struct {
+		*plain
+		Xs, Xe map[string]interface{} // shadow the interface fields of the embedded struct
+	}{plain: (*plain)(p)}
+	if err = json.Unmarshal(data, &aux); err != nil {
+		return
+	}
+	if aux.Xs != nil {
+		if p.Xs, err = ring.ParametersFromMap(aux.Xs); err != nil {
+			return
+		}
+	}
+	if aux.Xe != nil {
+		p.Xe, err = ring.ParametersFromMap(aux.Xe)
+	}
+	return
+}
+
 // GetLogN returns the LogN field of the target [ParametersLiteral].
 // The default value DefaultLogN is returned if the field is nil.
 func (p ParametersLiteral) GetLogN() (LogN int) {
